@@ -179,6 +179,7 @@ theorem p_evalStep (E : EvalPred) (env : Env) (hc : ∀ b, E.P (env.call b))
     intro st
     split
     · exact E.pure _
+    · exact E.pure _
     · exact E.bind ((E.lift _ (hIt _))) (fun _ => E.bind (p_forLoop E hb _ _) (fun _ => E.pure _))
   | .every (.quantifiedContexts items) (.satisfies body) => by
     have hb := p_evalStep E env hc hIt hBp hBn body
@@ -232,6 +233,7 @@ theorem p_evalStep (E : EvalPred) (env : Env) (hc : ∀ b, E.P (env.call b))
       apply E.bind (p_evalIteration E env hc hIt hBp hBn _ 0)
       intro st
       split
+      · exact E.pure _
       · exact E.pure _
       · exact E.bind ((E.lift _ (hIt _))) (fun _ => E.bind (p_forLoop E hb _ _) (fun _ => E.pure _))
     · exact E.bind ((E.lift _ (hIt _))) (fun _ => E.bind (p_forLoop E hb _ _) (fun _ => E.pure _))
@@ -324,8 +326,10 @@ theorem p_evalIteration (E : EvalPred) (env : Env) (hc : ∀ b, E.P (env.call b)
     · exact E.bind (p_evalIteration E env hc hIt hBp hBn items _) (fun _ => E.pure _)
   | .iterationContextRange (.name n) lo hi :: items, pos => by
     simp only [evalIteration]
-    exact E.bind (p_evalStep E env hc hIt hBp hBn lo) (fun _ => E.bind (p_evalStep E env hc hIt hBp hBn hi)
-      (fun _ => E.bind (p_evalIteration E env hc hIt hBp hBn items _) (fun _ => E.pure _)))
+    refine E.bind (p_evalStep E env hc hIt hBp hBn lo) (fun _ => E.bind (p_evalStep E env hc hIt hBp hBn hi) (fun _ => ?_))
+    split
+    · exact E.pure _
+    · exact E.bind (p_evalIteration E env hc hIt hBp hBn items _) (fun _ => E.pure _)
   | item :: items, pos => by
     have ih := p_evalIteration E env hc hIt hBp hBn items (pos + 1)
     unfold evalIteration
@@ -337,8 +341,10 @@ theorem p_evalIteration (E : EvalPred) (env : Env) (hc : ∀ b, E.P (env.call b)
       · exact E.pure _
       · exact E.bind ih (fun _ => E.pure _)
     · rename_i n lo hi
-      exact E.bind (p_evalStep E env hc hIt hBp hBn lo) (fun _ => E.bind (p_evalStep E env hc hIt hBp hBn hi)
-        (fun _ => E.bind ih (fun _ => E.pure _)))
+      refine E.bind (p_evalStep E env hc hIt hBp hBn lo) (fun _ => E.bind (p_evalStep E env hc hIt hBp hBn hi) (fun _ => ?_))
+      split
+      · exact E.pure _
+      · exact E.bind ih (fun _ => E.pure _)
     · exact ih
 end
 
